@@ -59,12 +59,12 @@ func (e *Exec) specApply(st *State, sp *SpecFunc, args []Val, env *cenv, pos tok
 			if sp.Rec {
 				e.sc.decls = append(e.sc.decls, fmt.Sprintf("(declare-fun %s (%s) %s)", si.fname, strings.Join(sorts, " "), si.rs))
 			}
-			e.binders++
+			e.sc.binders++
 			saved := e.inContract
 			e.inContract++
 			body := e.cev(sst, sp.Body, senv)
 			e.inContract = saved
-			e.binders--
+			e.sc.binders--
 			if body.T.Sort != si.rs {
 				e.fail(pos, "contract: spec %s body has sort %s, declared %s", sp.Name, body.T.Sort, si.rs)
 			}
